@@ -44,7 +44,7 @@ def gen_stream(rng, tid, scope, before_start=None, shift=0):
     # now and then a stream whose first region holds events older than the very
     # first event of the stream (their place is the start of the file)
     draw = rng.random() < 0.12
-    before_start = scope != "fail" and (draw if before_start is None else before_start)
+    before_start = scope != "fail" and (draw if before_start is None else before_start) and shift >= 0
     nbase = rng.choice([5, 30, 200, 1500])
     nreg = rng.randint(1, 8)
     # lean streams are often short and full of regions that reach far back, over earlier regions and
@@ -91,6 +91,9 @@ def gen_stream(rng, tid, scope, before_start=None, shift=0):
                 else:
                     c = rng.randint(lo, clock) if rng.random() < 0.8 else rng.choice([e[0] for e in evs[max(1, len(evs) - 1 - d):]] + [lo])
                 inside.append(body(c))
+            if shift < 0 and inside and not future and lo == 1000 and rng.random() < 0.7:
+                # an event of the region carries the very first clock of the stream (0 after the shift)
+                inside[rng.randrange(len(inside))][0] = 1000
             if before_start and i == reg_at[0] and inside and not future:
                 for e in inside[:rng.randint(1, len(inside))]:
                     e[0] = rng.randint(900, 999)
@@ -140,7 +143,7 @@ def gen_stream(rng, tid, scope, before_start=None, shift=0):
     if shift:
         for e in evs:
             e[0] += shift
-        info["crosses_2^63"] = True
+        info["crosses_2^63" if shift > 0 else "zero_origin"] = True
     return evs, info
 
 
@@ -162,6 +165,8 @@ def run_case(i):
     nstreams = rng.randint(1, 3)
     # clocks are unsigned 64-bit numbers: in one case in ten the streams cross 2^63
     shift = (2 ** 63 - rng.choice([1100, 1500, 4000])) if rng.random() < 0.1 else 0
+    if i % 7 == 3:
+        shift = -1000          # relative clocks: the streams start at clock 0, and 0 is a clock like any other
     streams = []
     need = 0
     for s in range(nstreams):
@@ -278,7 +283,7 @@ def run_case(i):
         rc_ = emu.run_tool(build, "ovnisort", ["-c", wd], timeout=60, env=env)
         if rc_.rc != 0 or rc_.sig:
             out["viol"] = ("check-mode-fails", "ovnisort -c rc=%s after sorting: %s" % (rc_.rc, rc_.err[-200:]), rc_.brief()); return out
-        if shift:
+        if shift > 0:
             # the emulator's clock arithmetic is signed: a trace that crosses 2^63 ns
             # (292 years) is outside what it replays; ovnisort's own result is judged
             return out
